@@ -1,7 +1,10 @@
 """C08 — position maps and mappings obey the documented mapping algebra.
 
 Tie: exact correspondence of StepMap.map_result / for_each / touches / recover / invert and of
-Mapping.map / map_result / slice / append_* / invert with lean/PM/Map.lean.
+Mapping.map / map_result / slice / append_* / invert with lean/PM/Map.lean; builder sequences (append_map with a mirror
+argument, set_mirror, append_mapping, append_mapping_inverted, invert, one- and two-bound slices, bounds past the last map)
+followed by map / map_result at every position with both association sides, get_mirror of every index and the
+"no index registered twice" predicate (lean/PM/MapTable.lean) — `mappingAlg`, exact.
 Search: the documented rule (written here independently, in prefix-sum form) against the real code.
 """
 import itertools
